@@ -14,7 +14,7 @@ RULE = (
     "(b) independent encoder (vf/cellcodec.py, written from the published layout: fields in ascending flag-bit order) -> "
     "library decoder: 9 decodable kinds x flag words over the 21 documented bits - all words with <=4 optional bits plus "
     "Hypothesis-drawn words (quick), all 2^18 words of the 18 id bits x sampled payload bits (thorough), sentinel ids in every "
-    "slot incl. the uninterpreted ones (0x80, 0x100, 0x800, 0x80000, 0x100000). Oracle: same kind, same payload, every "
+    "slot incl. the uninterpreted ones (0x80, 0x100, 0x800, 0x80000, 0x100000); the id 0 in each optional reference field in turn (both lanes). Oracle: same kind, same payload, every "
     "interpreted attribute equals its own sentinel, absent ones None. Non-trivial: >=2 optional fields present; distinct by "
     "(kind, flag word)."
 )
@@ -30,7 +30,7 @@ ATTRS = ["_rich_id", "_cell_style_id", "_text_style_id", "_formula_id", "_contro
 # library attribute <-> layout field name
 ATTR_FIELD = {a: a[1:] for a in ATTRS}
 ATTR_FIELD["_string_id"] = "string_id"
-SENT = {a: 1000 + 37 * i for i, a in enumerate(ATTRS)}
+SENT_IDS = {a: 1000 + 37 * i for i, a in enumerate(ATTRS)}
 
 KINDS = ["number", "currency", "text", "date", "bool", "duration", "empty", "rich"]
 PAYLOADS = {
@@ -79,9 +79,14 @@ CLASS_OF = {"number": "NumberCell", "currency": "NumberCell", "text": "TextCell"
             "empty": "EmptyCell", "rich": "RichTextCell", "error": "ErrorCell"}
 
 
-def check_encode(ctx, lib, stub, kind, subset, payload_i):
+def check_encode(ctx, lib, stub, kind, subset, payload_i, zero=None):
+    """zero: name of one optional reference attribute that carries the id 0 instead of its sentinel (0 is a value like any other in a
+    present 4-byte field: presence is the flag bit, not the value)."""
     cellmod, CellType, TST = lib
     case = {"lane": "encode", "kind": kind, "subset": subset, "payload": payload_i}
+    if zero is not None:
+        case["zero"] = zero
+    SENT = dict(SENT_IDS, **({zero: 0} if zero is not None else {}))
     payload = PAYLOADS[kind][payload_i % len(PAYLOADS[kind])]
     ctx.ev()
 
@@ -140,11 +145,13 @@ INTERPRETED = {"string_id": "_string_id", "rich_id": "_rich_id", "cell_style_id"
                "text_format_id": "_text_format_id", "bool_format_id": "_bool_format_id"}
 
 
-def check_decode(ctx, lib, stub, kind_i, word):
-    """word: bit mask over cc.FIELDS (the 21 documented bits)."""
+def check_decode(ctx, lib, stub, kind_i, word, zero=None):
+    """word: bit mask over cc.FIELDS (the 21 documented bits); zero: name of one id field that carries the id 0."""
     cellmod, CellType, TST = lib
     name, ctype, mandatory = decode_kinds(TST)[kind_i]
     case = {"lane": "decode", "kind": name, "kind_i": kind_i, "word": word}
+    if zero is not None:
+        case["zero"] = zero
     ctx.ev()
 
     def go():
@@ -161,7 +168,7 @@ def check_decode(ctx, lib, stub, kind_i, word):
                 elif fname == "seconds":
                     fields[fname] = 86400.0 * 366 + 0.25
                 else:
-                    fields[fname] = FIELD_SENT[fname]
+                    fields[fname] = 0 if fname == zero else FIELD_SENT[fname]
         buf = cc.encode(ctype, fields)
         back = cellmod.Cell._from_storage(1, 0, 0, bytearray(buf), stub)
         if type(back).__name__ != CLASS_OF[name]:
@@ -202,6 +209,7 @@ def tasks(tier, seed):
     for kind in KINDS:
         for half in range(2):
             t.append(("encode_all", {"kind": kind, "lo": half * 2048, "hi": (half + 1) * 2048}))
+    t.append(("zero_ids", {}))
     if tier == "quick":
         for kind_i in range(9):
             t.append(("decode_small", {"maxbits": 4, "kind_i": kind_i}))
@@ -227,6 +235,24 @@ def run_task(ctx, lane, **kw):
             if n >= 2:
                 ctx.nt_enum(1)
         ctx.sample({"lane": "encode", "kind": kind, "subsets": [kw["lo"], kw["hi"]]})
+    elif lane == "zero_ids":
+        # the id 0 in each optional reference field in turn: alone, with one neighbour on either side, and with every field present
+        opt = [a for a in ATTRS if a != "_rich_id"]
+        for kind in KINDS:
+            for a in opt:
+                i = ATTRS.index(a)
+                for subset in {1 << i, (1 << i) | (1 << max(i - 1, 1)) | (1 << min(i + 1, len(ATTRS) - 1)), (1 << len(ATTRS)) - 1}:
+                    check_encode(ctx, lib, stub, kind, subset, i, zero=a)
+                    ctx.nt_enum(1)
+        for kind_i in range(len(decode_kinds(lib[2]))):
+            for bit, fname in cc.ID_FIELDS:
+                if fname in ("string_id", "rich_id"):
+                    continue
+                for w in (bit, cc.ALL_BITS):
+                    check_decode(ctx, lib, stub, kind_i, w, zero=fname)
+                    ctx.nt_enum(1)
+        ctx.count("zero_id_records")
+        ctx.sample({"lane": "zero_ids", "fields": opt})
     elif lane == "decode_small":
         import itertools
 
@@ -272,6 +298,6 @@ def check_case(ctx, case):
     lib = _lib()
     stub = StubModel()
     if case["lane"] == "encode":
-        check_encode(ctx, lib, stub, case["kind"], case["subset"], case["payload"])
+        check_encode(ctx, lib, stub, case["kind"], case["subset"], case["payload"], zero=case.get("zero"))
     else:
-        check_decode(ctx, lib, stub, case["kind_i"], case["word"])
+        check_decode(ctx, lib, stub, case["kind_i"], case["word"], zero=case.get("zero"))
